@@ -169,5 +169,5 @@ func checkC01(ctx *Ctx) {
 	}
 	ctx.exhaustive = false
 	gens := append(append(genericGens(), expiryGens()...), otherTypeGens()...)
-	randomLane(ctx, "random", ctx.N(600, 8000), gens, nil, defaultUniverse(), 40, 80, 0.05, lightInst)
+	randomLane(ctx, "random", ctx.N(2000, 12000), gens, nil, defaultUniverse(), 40, 80, 0.05, lightInst)
 }
